@@ -7,6 +7,8 @@ package main
 
 import (
 	"fmt"
+	"regexp"
+	"strings"
 
 	"github.com/hneemann/parser2/funcGen"
 	"github.com/hneemann/parser2/listMap"
@@ -134,6 +136,64 @@ func closureUsesAttr(n *vlang.Node) bool {
 	return found
 }
 
+// bareGenerator: a generic generator that declares neither a constant nor a static function, with the
+// handlers and operators of value.New().
+func bareGenerator() *funcGen.FunctionGenerator[value.Value] {
+	hv := value.New()
+	g := funcGen.New[value.Value]().
+		SetNumberParser(hv).SetStringConverter(hv).SetListHandler(hv).SetMapHandler(hv).SetClosureHandler(hv).SetMethodHandler(hv).
+		SetKeyWords("let", "func", "if", "then", "else").
+		SetToBool(func(c value.Value) (bool, bool) {
+			if b, ok := c.(value.Bool); ok {
+				return bool(b), true
+			}
+			return false, false
+		})
+	for _, op := range []string{"<=", "+", "-", "*"} {
+		g.AddOpImpl(op, false, hv.GetOpImpl(op))
+	}
+	return g
+}
+
+func (h *harness) checkBare(ctx *bex.Ctx) {
+	m := value.NewMap(value.RealMap{"a": value.Int(3), "b": value.Int(4), "l": value.NewList(value.Int(1), value.Int(2), value.Int(3))})
+	pairs := [][2]string{
+		{"a", "this.a"}, {"a*2+b", "this.a*2+this.b"}, {"let x=a*a; x+b", "let x=this.a*this.a; x+this.b"},
+		{"l.map(e->e*a+b).sum()", "this.l.map(e->e*this.a+this.b).sum()"},
+		{"func f(n) if n<=0 then b else f(n-1)+a; f(3)", "func f(n) if n<=0 then this.b else f(n-1)+this.a; f(3)"},
+		{"let a=l.size(); a+b", "let a=this.l.size(); a+this.b"}, {"this.a+a", "this.a+this.a"}, {"(x->y->x+y+a)(1)(2)", "(x->y->x+y+this.a)(1)(2)"},
+		{"l.map(a->a+b).sum()", "this.l.map(a->a+this.b).sum()"}, {"1+2", "1+2"}, {"c", "this.c"}, {"l.size()*a", "this.l.size()*this.a"},
+	}
+	for _, pr := range pairs {
+		repro := map[string]any{"src": pr[0], "explicit": pr[1], "generator": "no constant, no static function", "map_name": "this"}
+		ctx.Begin(func() map[string]any { return repro })
+		ctx.Eval()
+		run := func(implicit bool) (out string) {
+			defer func() {
+				if r := recover(); r != nil {
+					out = fmt.Sprintf("PANIC %v", r)
+				}
+			}()
+			var f funcGen.Func[value.Value]
+			var err error
+			if implicit {
+				f, _, err = bareGenerator().GenerateWithMap(pr[0], "this")
+			} else {
+				f, _, err = bareGenerator().Generate(pr[1], "this")
+			}
+			if err != nil {
+				return "generate-error"
+			}
+			return vrun.Eval(f, []value.Value{m}).String()
+		}
+		oi, oe := run(true), run(false)
+		ctx.Outcome("bare/" + map[bool]string{true: "agree", false: "differ"}[oi == oe])
+		if oi != oe || strings.HasPrefix(oi, "PANIC") {
+			ctx.Violate("GenerateWithMap and the explicit form differ on a generator without constants and static functions", repro, "explicit: "+oe, "implicit: "+oi, "")
+		}
+	}
+}
+
 func (h *harness) check(ctx *bex.Ctx, prog *vlang.Node, allMaps bool) {
 	h.checkNamed(ctx, prog, allMaps, "this")
 }
@@ -141,6 +201,14 @@ func (h *harness) check(ctx *bex.Ctx, prog *vlang.Node, allMaps bool) {
 // checkNamed: the argument map is called mapName (the programs are written with "this"). The argument is
 // a local binding: an attribute (or constant, or static function) of the same name is shadowed by it.
 func (h *harness) checkNamed(ctx *bex.Ctx, prog *vlang.Node, allMaps bool, mapName string) {
+	h.checkForm(ctx, prog, allMaps, mapName, false)
+}
+
+var parenMarker = regexp.MustCompile(`ZZ(\w*)ZZ`)
+
+// checkForm: paren = every free attribute use stands alone in parentheses, (a) against (this.a) - a spelling
+// no renderer produces from a tree.
+func (h *harness) checkForm(ctx *bex.Ctx, prog *vlang.Node, allMaps bool, mapName string, paren bool) {
 	attrs := attrSet
 	if mapName != "this" {
 		prog = vlang.SubstFree(prog, map[string]bool{"this": true}, func(string) *vlang.Node { return vlang.V(mapName) })
@@ -153,6 +221,11 @@ func (h *harness) checkNamed(ctx *bex.Ctx, prog *vlang.Node, allMaps bool, mapNa
 	}
 	src := vlang.Render(prog)
 	explicit := vlang.Render(vlang.SubstFree(prog, attrs, func(name string) *vlang.Node { return vlang.MemberN(vlang.V(mapName), name) }))
+	if paren {
+		marked := vlang.Render(vlang.SubstFree(prog, attrs, func(name string) *vlang.Node { return vlang.V("ZZ" + name + "ZZ") }))
+		src = parenMarker.ReplaceAllString(marked, "($1)")
+		explicit = parenMarker.ReplaceAllString(marked, "("+mapName+".$1)")
+	}
 	ctx.Begin(func() map[string]any { return map[string]any{"src": src, "map_name": mapName} })
 	nontrivial := false
 	usesAttr := src != explicit
@@ -332,7 +405,26 @@ func runRest(ctx *bex.Ctx, h *harness, maxA, maxB int) {
 			})
 		}
 	}
-	ctx.SpaceDone(fmt.Sprintf("the fixed templates and every binder skeleton with <= 2 binders with the argument map named %v (an ordinary name, static functions, a constant, an attribute of the map itself)", mapNames))
+	for _, p := range fixedTemplates() {
+		nidx++
+		if ctx.Mine(nidx) {
+			h.checkForm(ctx, p, true, "this", true)
+		}
+	}
+	for k := 1; k <= 2 && !ctx.Expired(); k++ {
+		sk := &vlang.Skel{Obs2: "obs2"}
+		sk.Each(k, vlang.NewAttrScope(attrSorts, attrNames), func(p *vlang.Node) bool {
+			nidx++
+			if ctx.Mine(nidx) {
+				h.checkForm(ctx, p, false, "this", true)
+			}
+			return !ctx.Expired()
+		})
+	}
+	if ctx.Shard == 0 {
+		h.checkBare(ctx)
+	}
+	ctx.SpaceDone(fmt.Sprintf("every free attribute use written alone in parentheses, (a) against (this.a), on the fixed templates and all skeletons with <= 2 binders; 12 programs on a funcGen generator WITHOUT any constant or static function (empty identifier table; handlers borrowed from value.New()); the fixed templates and every binder skeleton with <= 2 binders with the argument map named %v (an ordinary name, static functions, a constant, an attribute of the map itself)", mapNames))
 
 	ctx.Space("tierB-binder-skeletons")
 	var idx int64
